@@ -552,6 +552,13 @@ def check(prop, tier):
                 cov["residues_missing"] = sorted(set(range(512)) - v)[:40]
         else:
             cov.setdefault("mode_counters", {})[k] = v
+    if prop == "C16":
+        mc = cov.get("mode_counters", {})
+        cov["fault_kinds_fired"] = {
+            "truncate": mc.get("alt.trunc", 0), "crash_image_at_write_boundary": mc.get("alt.crash", 0), "torn_write": mc.get("alt.torn", 0),
+            "lost_512_byte_blocks": mc.get("alt.lostblk", 0), "byte_rot_structure_aware": sum(v for k, v in mc.items() if k.startswith("alt.rot.") and k != "alt.rot.random"),
+            "byte_rot_random": mc.get("alt.rot.random", 0), "undamaged_control": mc.get("alt.none", 0)}
+        cov["outcomes_of_damaged_loads"] = {k: v for k, v in mc.items() if k == "loaded" or k.startswith("refused.")}
     ev = {
         "property_id": prop, "tier": tier, "seed": seed, "level": level, "coverage": cov,
         "assumptions": ASSUME.get(prop, []) + ["the reference oracles in /verif/sim (snapshot comparison, independent C3D codec, documented-precondition model) are correct",
